@@ -33,10 +33,13 @@ Definition redrill (P T : list Q) (maxdd : Q) : redrilled :=
     let Pn := firstn (length P) (tile (firstn idx P) (S r)) in
     {| rd_P := Pn; rd_T := firstn (length Pn) (tile (firstn idx T) (S r)); rd_count := r; rd_index := idx |}.
 
-(* One call of WellBores.Calculate: redrill.value is assigned only when the step redrills, so the count of an earlier
-   call on the same object persists otherwise (district heating calls Calculate twice; the reservoir history of the
-   second call is recomputed from scratch, only this count is carried over). [prev] = 0 on a fresh object. *)
-Definition redrill_call (prev : nat) (P T : list Q) (maxdd : Q) : redrilled :=
+(* One call of WellBores.Calculate on an object whose redrill count was left at [prev] by an earlier call (district
+   heating calls Calculate twice; the reservoir history of the second call is recomputed from scratch).  Since fix
+   825a507 the count is reset at the start of the step, so the earlier count never shows. *)
+Definition redrill_call (prev : nat) (P T : list Q) (maxdd : Q) : redrilled := redrill P T maxdd.
+
+(* the pinned tree (before the fix) assigned redrill.value only when the step redrills: the earlier count persisted otherwise *)
+Definition redrill_call_pinned (prev : nat) (P T : list Q) (maxdd : Q) : redrilled :=
   let r := redrill P T maxdd in
   if Nat.eqb (rd_index r) 0 then {| rd_P := rd_P r; rd_T := rd_T r; rd_count := prev; rd_index := 0 |} else r.
 
